@@ -276,3 +276,32 @@ def explain(fname, call):
     except Exception as e:
         return f"{fname}{a}: {type(e).__name__}: {e}"
     return f"{fname} fails for {a}"
+
+
+# ---- native fuzz companion (ground; not solver-decided): character-level mutations of grammar-derived formulas
+
+FUZZ_CHARS = list("ab1 0+-*/:^~|()[]{}`'\".,%_#\\") + ["**", "%in%", "f(", "{a", "`x", " ~ ", "\t", "\n", "é", "2.5", "1e3", "np.log(a)"]
+
+
+def fuzz_strings(seed: int, n: int):
+    import random
+
+    rng = random.Random(seed)
+    base = pc.random_streams(seed + 1, n)
+    out = []
+    for syms in base:
+        s = "".join(t + (" " if rng.random() < 0.7 else "") for t in syms)
+        for _ in range(rng.choice([0, 1, 1, 2, 3])):
+            pos = rng.randrange(len(s) + 1)
+            how = rng.random()
+            ch = rng.choice(FUZZ_CHARS)
+            if how < 0.5:
+                s = s[:pos] + ch + s[pos:]
+            elif how < 0.8 and pos < len(s):
+                s = s[:pos] + ch + s[pos + 1:]
+            elif pos < len(s):
+                s = s[:pos] + s[pos + 1:]
+        if re.search(r"(\*\*|\^)\s*[0-9][0-9 ]*[0-9]", s):
+            continue  # a multi-digit exponent on a many-term operand is legitimately expensive (|S| ** |S| products): probed separately
+        out.append(s)
+    return out
